@@ -31,6 +31,8 @@ def gen_case(seed, k):
         td = G.random_type(rng, ts, G.Opts(rich=True, generics=True, bounds=False))
     if td.kind != "union" and rng.random() < 0.1:
         G.add_self_recursive_field(rng, td)
+    if td.kind != "union" and rng.random() < 0.2:
+        G.add_token_only_field(rng, td)
     typarams = [p["name"] for p in td.params if p["kind"] == "ty"]
     ts = set(td.traits)
     # override bound modes (the result need not type-check: D2 only looks at tokens)
